@@ -114,7 +114,9 @@ var c01Families = &vlib.Check{
 	Gen: func(t *rapid.T) *vlib.Case {
 		r := vlib.RapidRnd{T: t}
 		var b []byte
-		switch r.Intn(5) {
+		switch r.Intn(7) {
+		case 5, 6:
+			b = genAliasFamily(r)
 		case 0:
 			b = genAllOfFamily(r)
 		case 1:
